@@ -17,10 +17,29 @@ TYPES = [(32e9, 50e9), (64e9, 75e9), (16e9, 25e9), (60e9, 62.5e9)]
 
 
 # ---- part 1 -------------------------------------------------------------------------------------------------------------
-def carrier_lists():
+def carrier_lists(deep=False):
     """(name, list of (f, baud, slot, extra), valid?)"""
     out = []
     base = 193.0e12
+    if deep:
+        # thorough tier: all typings of 4 touching channels and every one-step overlap between neighbours of 4 channels
+        for types in itertools.product(range(4), repeat=4):
+            edge, chans = base, []
+            for t in types:
+                b, s = TYPES[t]
+                chans.append((edge + s / 2, b, s))
+                edge += s
+            out.append(('touching4_' + ''.join(map(str, types)), chans, True))
+        for types in itertools.product(range(3), repeat=4):
+            for k in (0, 1, 2):
+                edge, chans = base, []
+                for i, t in enumerate(types):
+                    b, s = TYPES[t]
+                    if i == k + 1:
+                        edge -= 12.5e9
+                    chans.append((edge + s / 2, b, s))
+                    edge += s
+                out.append((f'overlap4_{k}' + ''.join(map(str, types)), chans, False))
     # all typings of 3 adjacent channels placed edge to edge (valid, touching)
     for types in itertools.product(range(4), repeat=3):
         f, edge = [], base
@@ -287,6 +306,10 @@ def run_path(case):
             idx = list(range(len(spec)))
             # every permutation of up to 5 supplied carriers (the in-band ones), plus reversed / rotated full lists
             orders = [idx, idx[::-1], idx[1:] + idx[:1], idx[::2] + idx[1::2]]
+            if case.get('orders') == 'many':
+                # every rotation and every adjacent transposition of the supplied list
+                orders += [idx[k:] + idx[:k] for k in range(2, len(idx))]
+                orders += [idx[:k] + [idx[k + 1], idx[k]] + idx[k + 2:] for k in range(len(idx) - 1)]
         kept = expected_kept(spec, common)
         base = None
         for order in orders:
@@ -379,18 +402,21 @@ def run_case(case):
 
 
 def main(rep, tier, seed):
-    cases = [dict(kind='construct', name=n, chans=[list(x) for x in ch], valid=v) for n, ch, v in carrier_lists()]
+    cases = [dict(kind='construct', name=n, chans=[list(x) for x in ch], valid=v)
+             for n, ch, v in carrier_lists(deep=tier == 'thorough')]
     n1 = len(cases)
     variants = range(6) if tier == 'thorough' else [seed % 6, (seed + 3) % 6]
     for net in NETS:
         cases.append(dict(kind='path', net=net, spectrum='uniform', variant=0))
         for v in variants:
-            cases.append(dict(kind='path', net=net, spectrum='edges', variant=v))
+            cases.append(dict(kind='path', net=net, spectrum='edges', variant=v, orders='many' if tier == 'thorough' else 'few'))
     results, stats = engine.run_pool('checks.c07', cases, horizon=600, chunksize=1)
     rep.absorb(results)
     rep.cov['bound'] = (f'{n1} carrier lists (all typings of 3 touching channels, every one-step overlap, baud>slot variants, '
                         f'5-channel lists) x all permutations x 2 constructors; {len(NETS)} networks x every simple path x '
-                        f'{len(list(variants))} edge-spectrum variants (+ uniform grid) x 4 carrier orders')
+                        f'{len(list(variants))} edge-spectrum variants (+ uniform grid) x '
+                        + ('4 carrier orders' if tier == 'quick' else 'reversed, interleaved, every rotation and every adjacent transposition '
+                           'of the carrier list; + all typings of 4 touching channels / every one-step overlap of 4 in part 1'))
     rep.cov['space_size'] = len(cases)
     rep.cov['exhaustive'] = not stats['budget_hit'] and len(results) == len(cases)
     rep.cov['rule'] = ('part 1: SpectrumError for every order of an invalid list, identical SpectralInformation for every order '
